@@ -30,6 +30,7 @@ type Region struct {
 	Elem  *Sort
 	Kind  string // input | param | fresh | string | nil
 	Input bool
+	Copy  bool // created by a []byte -> string conversion (owns its memory)
 }
 
 type SliceV struct {
@@ -866,6 +867,7 @@ func (ex *Exec) convert(st *State, i *ssa.Convert) Value {
 	if sv, ok := xv.(*SliceV); ok {
 		if b, ok := to.Underlying().(*types.Basic); ok && b.Kind() == types.String {
 			r := newRegion("str", BV(8), "string")
+			r.Copy = true
 			// copy: contents equal at conversion time
 			st.store[r] = ex.load(st, Place{Root: sv.Reg})
 			ex.allocEvent(st, "string([]byte)", sv.Len, i.Pos())
